@@ -86,6 +86,8 @@ def run_shard(sh):
     jscases = []
     for qi, (kind, q) in enumerate(sp_['qs'][sh['lo']:sh['hi']]):
         sp = refql.Spelling(update_set=(qi % 2 == 0))
+        if qi % 5 == 4:
+            sp = refql.Spelling(update_set=(qi % 2 == 0), list_sep=',      ', assign_eq='     =     ', inner_space='    ')     # runs of 4+ spaces around assignments
         text = refql.render(q, 'py', sp)
         Blist = sp_['Bs'] if kind == 'join' else [None]
         # named slice: the same query text is run against both column orders of the header (a stale name -> position binding shows)
